@@ -79,6 +79,11 @@ class Inputs:
         return x if self.concrete else SBool(x)
 
 
+def ite_b(c, a, b):
+    """boolean if-then-else over possibly concrete operands"""
+    return b_or(b_and(c, a), b_and(b_not(c), b))
+
+
 def code(s):
     return S.code(s)
 
@@ -247,22 +252,27 @@ class Scenario:
         sel = lambda attr: None
         return fs
 
-    def selected_earlier(self, j):
+    def selected_earlier(self, j, kind='any'):
         """The scheduler (or the job-private creator) read its candidate rows at some earlier point of this history
         — possibly before other operations were applied — so enabledness is evaluated on any earlier snapshot."""
-        out = self.scheduler_selects(j)
+        out = self.scheduler_selects(j, kind=kind)
         for snap in self.snapshots:
-            out = b_or(out, self.scheduler_selects(j, snap))
+            out = b_or(out, self.scheduler_selects(j, snap, kind=kind))
         return out
 
-    def scheduler_selects(self, j, db=None):
+    def scheduler_selects(self, j, db=None, kind='any', having=True):
         """The job the scheduler may hand to schedule_job / job-private creating: the candidate queries of
         PoolScheduler.schedule_loop_body, extracted from pool.py and evaluated by sqlsym (vt/sqlsym/driverq.py)."""
         from . import driverq
         db = db if db is not None else self.db
         out = False
         for k in db.t['jobs'].rows:
-            out = b_or(out, b_and(oracle.i_eq(j, k[1]), driverq.scheduler_selects(db, k[1])))
+            # a job of a pool is handed out by the pool scheduler, a job of the job-private collection by
+            # JobPrivateInstanceManager.create_instances_loop_body - each has its own candidate queries
+            pool = b_and(driverq.job_in_pool(db, k[1]), driverq.scheduler_selects(db, k[1]))
+            priv = b_and(b_not(driverq.job_in_pool(db, k[1])), driverq.jobprivate_selects(db, k[1], having=having))
+            sel = pool if kind == 'pool' else priv if kind == 'jp' else b_or(pool, priv)
+            out = b_or(out, b_and(oracle.i_eq(j, k[1]), sel))
         return out
 
     def op_schedule(self, tag):
@@ -279,7 +289,7 @@ class Scenario:
         early_same = False
         for (j2, a2, i2) in getattr(self, 'early', []):
             early_same = b_or(early_same, b_and(oracle.i_eq(j, j2), oracle.i_eq(a, a2), oracle.i_eq(i, i2)))
-        self._assume(b_or(b_and(self.selected_earlier(j), b_not(pres)), creating_same, early_same))
+        self._assume(b_or(b_and(self.selected_earlier(j, 'pool'), b_not(pres)), creating_same, early_same))
         # the scheduler only places jobs on instances it holds as active (schedule_job asserts it); the database row may
         # meanwhile have been deactivated, but it cannot be pending again
         st = self._inst_state(i)
@@ -291,7 +301,7 @@ class Scenario:
     def op_creating(self, tag):
         j, a, i = self._job(tag), self._att(tag), self._inst(tag)
         pres, _ = self._attempt_facts(j, a)
-        self._assume(b_and(self.selected_earlier(j), b_not(pres)))
+        self._assume(b_and(self.selected_earlier(j, 'jp'), b_not(pres)))
         t = self.inp.int(f'{tag}_time')
         self.begin('mark_job_creating')
         return self.w.call('mark_job_creating', [1, V(j), V(a), V(i), V(t)])
@@ -324,7 +334,7 @@ class Scenario:
         processed before the driver's CALL schedule_job"""
         j, a, i = self._job(tag), self._att(tag), self._inst(tag)
         pres, _ = self._attempt_facts(j, a)
-        self._assume(b_and(self.selected_earlier(j), b_not(pres)))
+        self._assume(b_and(self.selected_earlier(j, 'pool'), b_not(pres)))
         self._assume(b_not(oracle.i_eq(self._inst_state(i), code('pending'))))
         if not hasattr(self, 'early'):
             self.early = []
